@@ -400,7 +400,12 @@ def r5_use_polarity(ctx, rep, R='C08.R5'):
         if True:
             from .common import guard_literals
             lits = guard_literals(ctx, ff, c)
-            acc = [(e, pos) for e, pos in lits if isinstance(e, ast.Call) and is_name(e.func, 'accept')]
+            from .common import local_assignments
+            preds = {nm for nm, vals in local_assignments(ff.node).items()
+                     if any(isinstance(v, ast.Call) and call_name(v) == 'build_filtering_func'
+                            for v in vals if isinstance(v, ast.AST))}
+            acc = [(e, pos) for e, pos in lits if isinstance(e, ast.Call) and
+                   isinstance(e.func, ast.Name) and e.func.id in preds]
             if acc:
                 n += 1
                 sites.add('filter')
